@@ -30,6 +30,9 @@
 (*   FixedKeys = FALSE  a binary is keyed by its path *after the prefix common to the directories of   *)
 (*                      the package's binaries* (package::convert_path_to_unique_suffix): the key of   *)
 (*                      one binary depends on which other binaries the package contains                *)
+(*   FixedKeys = TRUE   the key is the path below the package root.  (A binary has the same path in    *)
+(*                      both packages here; pairing across differently named top-most directories --  *)
+(*                      foo-1.0/ against foo-1.1/ in archives -- is outside this model.)              *)
 EXTENDS Integers, Sequences, FiniteSets, TLC, Json
 
 CONSTANTS Paths,        \* binaries: naturals, numbered in the order of their file names
